@@ -42,8 +42,8 @@ func canonKey(v *VDesc) (key string, exact bool) {
 	case KString:
 		return strconv.Quote(nfc(v.S)), true
 	case KCapsule:
-		if v.T.Cap == 0 {
-			return fmt.Sprintf("c0#%d", v.Cap), true
+		if v.T.Cap != 1 {
+			return fmt.Sprintf("c%d#%d", v.T.Cap, v.Cap), true
 		}
 		return fmt.Sprintf("c1#%d", v.Cap%8), true
 	case KList, KTuple:
